@@ -64,6 +64,24 @@ Proof.
       right. destruct IH as [H|[d' H]]; [discriminate|]. exists (c :: d'). cbn. rewrite H. reflexivity.
 Qed.
 
+Lemma split_sigil_spec s a b : split_sigil s = (a, b) -> s = a ++ b.
+Proof.
+  destruct s as [|c r]; cbn [split_sigil]; [intros E; inversion E; reflexivity|].
+  destruct (c =? cAT); intros E; inversion E; reflexivity.
+Qed.
+
+Lemma split_ns_spec s : forall d f, split_ns s = (d, f) -> s = d ++ f /\ ~ In cCOLON f.
+Proof.
+  induction s as [|c s IH]; intros d f E; cbn [split_ns] in E.
+  - inversion E. split; [reflexivity|intros []].
+  - destruct (split_ns s) as [d0 f0]. destruct (IH _ _ eq_refl) as [Es Hn].
+    destruct (N.eqb_spec c cCOLON) as [Ec|Ec].
+    + inversion E; subst. split; [reflexivity|exact Hn].
+    + destruct d0 as [|x d0]; inversion E; subst; cbn.
+      * split; [reflexivity|]. intros [H|H]; [apply Ec; exact H|exact (Hn H)].
+      * split; [reflexivity|exact Hn].
+Qed.
+
 (* ------------------------------------------------------------------ *)
 (* file names: offered = entries with the typed prefix                  *)
 
@@ -423,12 +441,23 @@ Qed.
 Definition tree_wf (buf : bytes) (t : treeobs) : Prop :=
   (t_leaf_to t <= length buf)%nat /\ (t_cfrom t <= t_cto t)%nat /\ (t_cto t <= length buf)%nat.
 
+(* a variable leaf: a dollar sign, then at least the text of the name *)
+Definition var_leaf_wf (t : treeobs) : Prop :=
+  (t_leaf_from t + 1 + length (t_leaf_val t) <= t_leaf_to t)%nat.
+
 Lemma replace_range_in_buffer homes t src buf r seed q :
-  tree_wf buf t -> complete_model is_print homes t src = MRes r seed q ->
+  tree_wf buf t -> (r_name r = NVariable -> var_leaf_wf t) ->
+  complete_model is_print homes t src = MRes r seed q ->
   (r_from r <= r_to r)%nat /\ (r_to r <= length buf)%nat.
 Proof.
-  intros (W1 & W2 & W3) H. unfold complete_model in H.
+  intros (W1 & W2 & W3) Wv H. unfold complete_model in H.
   destruct (dispatch _ _); try discriminate;
+    try (destruct src; try discriminate;
+         destruct (split_sigil _) as [sg qn] eqn:S1; destruct (split_ns _) as [ns sd] eqn:S2;
+         destruct (_ || _); try discriminate; inversion H; subst;
+         cbn [r_from r_to r_name] in *; specialize (Wv eq_refl); unfold var_leaf_wf in Wv;
+         apply split_sigil_spec in S1; apply split_ns_spec in S2 as [S2 _];
+         rewrite S1, S2, !app_length in Wv; lia);
     try (destruct (partial_compound _ _ _); try discriminate);
     destruct (_ && special_head _); try discriminate;
     destruct (candidates _ _ _); try discriminate;
